@@ -9,13 +9,17 @@ PREFIX, SUFFIX = 0xCC, [0xC3, 0x3C, 0x33, 0xCE, 0x3E, 0xE3]
 
 
 class NetSim:
-    def __init__(self, nodes, seed=0, jitter=3000, gap_ms=300, fate_fn=None, spi_ns=20_000, lazy_drain=False, faults=None):
+    def __init__(self, nodes, seed=0, jitter=3000, gap_ms=300, fate_fn=None, spi_ns=20_000, lazy_drain=False, faults=None,
+                 prefix=None, suffix=None):
         """nodes: list of dicts {addr, kind: 'net'|'routing'|'mesh'|'master', node_id?, opts...}"""
         self.s = sim.Sched(seed=seed, jitter=jitter)
         self.air = sim.Air(self.s)
         self.air.fate_fn = fate_fn or (self._fault_fate if faults else None)
         self.faults = faults or []
         self.lazy_drain = lazy_drain
+        # a private address space, applied the documented way: set address_prefix / address_suffix after construction and
+        # re-assign node_address (even to the same value) so that the RX pipes are re-opened on the new addresses
+        self.prefix, self.suffix = (prefix if prefix is not None else PREFIX), (list(suffix) if suffix is not None else SUFFIX)
         sim.install(self.s)
         from circuitpython_nrf24l01.rf24_network import RF24Network, RF24NetworkRoutingOnly
         from circuitpython_nrf24l01.rf24_mesh import RF24Mesh, RF24MeshNoMaster
@@ -52,6 +56,13 @@ class NetSim:
                 raise KeyError(kind)
             for k, v in nd.get("opts", {}).items():
                 setattr(o, k, v)
+            if prefix is not None or suffix is not None:
+                o.address_prefix = bytearray([self.prefix])
+                o.address_suffix = bytearray(self.suffix)
+                if kind in ("net", "routing"):
+                    o.node_address = nd["addr"]
+                else:
+                    o._begin(o.node_address)
             if nd.get("reassign"):
                 o.node_address = nd["addr"]       # re-derive pipe addresses after option changes
             self.objs[name], self.chips[name] = o, c
@@ -275,7 +286,7 @@ class NetSim:
                 mine = [d for d in wins[i]["deqs"] if d["msg"] != wins[i - 1]["call"]["msg"] or d["msg"] == wins[i]["call"]["msg"]]
                 wins[i - 1]["deqs"] += [d for d in wins[i]["deqs"] if d not in mine]
                 wins[i]["deqs"] = mine
-        return dict(nodes=nodes, prefix=PREFIX, suffix=SUFFIX, projs=self.projs, wins=wins,
+        return dict(nodes=nodes, prefix=self.prefix, suffix=self.suffix, projs=self.projs, wins=wins,
                     mesh=[e for e in ev if e["k"] == "mesh"], crashes=[e for e in ev if e["k"] in ("crash", "hang")])
 
 
